@@ -1503,7 +1503,20 @@ def assemble(verif_root, repo_root, unit, out_path):
             name = kn[1].strip() if len(kn) > 1 else ''
             where = '%s::%s' % (unit, name)
             sections = parse_sections(rest, where)
-            text, meta = extract_item(repo_root, rel, container, kind, name, opts, unit_rules, sections, where)
+            try:
+                text, meta = extract_item(repo_root, rel, container, kind, name, opts, unit_rules, sections, where)
+            except ExtractError as e_:
+                # a lifted statement region whose anchors are gone (the function was restructured): in lenient mode the region
+                # alone is dropped - the rest of the unit still verifies - and the runner reports its label as undecided, so
+                # that the witness search for that function can still run
+                if not (LENIENT['on'] and kind == 'region' and e_.kind == 'anchor-lost'):
+                    raise
+                LENIENT['lost'].append((where, 'region dropped: ' + e_.msg[:120]))
+                cur_line = ''.join(out).count('\n') + 1
+                extracts.append({'label': opts.get('label', name), 'name': name, 'file': rel, 'lines': [0, 0], 'sha256': '', 'rules': [],
+                                 'contract': '', 'dropped': e_.msg, 'out_lines': [cur_line, cur_line]})
+                # an external_body attribute directly in front of the directive would now decorate the next item: not used for regions
+                continue
             label = opts.get('label', name)
             meta['label'] = label
             # a function marked `#[verifier::external_body]` in the template is a STUB of an already proved callee:
